@@ -140,6 +140,10 @@ def main():
             return pt.Pop(B(s[1], env))
         if k == "assert":
             return pt.Assert(E(s[1], env))
+        if k == "assertc":
+            return pt.Assert(E(s[1], env), comment=s[2])
+        if k == "assertm":
+            return pt.Assert(*[E(x, env) for x in s[1]], comment=s[2])
         if k == "if":
             if s[3]:
                 return pt.If(E(s[1], env)).Then(SEQ(s[2], env)).Else(SEQ(s[3], env))
